@@ -57,7 +57,7 @@ type cWorld struct {
 func genCCfg(rc *RunCtx) CCfg {
 	r := rc.Rng
 	return CCfg{NLookupd: r.Range(1, 3), Stub: r.Chance(1, 2), YieldProb: uint32(r.Pick(0, 1024, 4096)),
-		Topics: []string{"t0", "t1", "t2", "e#ephemeral"}[:r.Range(2, 4)], Channels: []string{"c0", "c1", "x#ephemeral"}[:r.Range(1, 3)]}
+		Topics: []string{"t0", "t1", "t2", "e#ephemeral"}[:r.Range(2, 4)], Channels: []string{"c0", "c1", "x#ephemeral", "c2", "c3", "c4"}[:r.Pick(1, 2, 3, 5, 6)]}
 }
 
 func genCOps(rc *RunCtx, c CCfg) []Op {
@@ -67,6 +67,16 @@ func genCOps(rc *RunCtx, c CCfg) []Op {
 	add := func(o Op) { o.Uid = len(ops); ops = append(ops, o) }
 	for len(ops) < n {
 		t, ch, l := int64(r.Intn(8)), int64(r.Intn(8)), int64(r.Intn(4))
+		if r.Chance(1, 12) {
+			// other nsqds told the lookupds about several channels of a topic; then the
+			// topic is first published here by several publishers at once
+			add(Op{Kind: "adv", A: 36000})
+			for k := r.Range(2, 5); k > 0; k-- {
+				add(Op{Kind: "lkcreate", A: t, B: int64(r.Intn(8))})
+			}
+			add(Op{Kind: "pub", A: t, B: int64(r.Pick(1, 3, 3))})
+			continue
+		}
 		switch r.Weighted([]int{10, 8, 6, 6, 10, 12, 6, 6, 5, 10, 4, 6}) {
 		case 0:
 			add(Op{Kind: "nsqd", S: "create_topic", A: t})
